@@ -439,3 +439,56 @@ twin('C04', 'c04-twin-list-copy', CONTEXT,
      "        for child in self._children.copy():\n            child.__close__(reason=reason)",
      "        for child in list(self._children):\n            child.__close__(reason=reason)",
      '.copy() <-> list()')
+
+# ------------------------------------------------------------------------- C05
+mutant('C05', 'c05-genexit-is-failure', TASK,
+       "                # termination in self.__close__ or during cleanup.\n                self.parent.__child_finished__(self, failed=False)",
+       "                # termination in self.__close__ or during cleanup.\n                self.parent.__child_finished__(self, failed=True)",
+       'H', 'closing children makes the scope fail')
+mutant('C05', 'c05-failure-as-success', TASK,
+       "                self._result = None, err\n                self.parent.__child_finished__(self, failed=True)",
+       "                self._result = None, err\n                self.parent.__child_finished__(self, failed=False)",
+       'H', 'child failures are ignored by the scope')
+mutant('C05', 'c05-collect-reversed', CONTEXT,
+       "        for exc in self._child_failures:\n            if isinstance(exc, promote):",
+       "        for exc in reversed(self._child_failures):\n            if isinstance(exc, promote):",
+       'C iterates', 'failures reported in reverse order')
+mutant('C05', 'c05-collect-keeps-suppressed', CONTEXT,
+       "            if not isinstance(exc, suppress):\n                concurrent.append(exc)",
+       "            concurrent.append(exc)",
+       'C append', 'cancellations/closures end up in Concurrent')
+mutant('C05', 'c05-collect-only-first', CONTEXT,
+       "            exc = Concurrent(*concurrent)", "            exc = Concurrent(concurrent[0])",
+       'C Concurrent', 'only the first failure is reported')
+mutant('C05', 'c05-both-at-once', CONTEXT,
+       "            privileged, _ = self._collect_exceptions()\n            if privileged is not None:\n                raise privileged",
+       "            privileged, concurrent = self._collect_exceptions()\n            if privileged is not None or concurrent is not None:\n                raise privileged or concurrent",
+       'E', 'the body\'s exception is replaced by Concurrent')
+mutant('C07', 'c07-suppress-any-cancelscope', CONTEXT,
+       "        return exc_val is self._cancel_self\n",
+       "        return isinstance(exc_val, CancelScope)\n",
+       'suppress', 'a foreign scope\'s signal is swallowed')
+mutant('C05', 'c05-swallow-everything', CONTEXT,
+       "            # we still have our unhandled exception to propagate\n            return True",
+       "            # we still have our unhandled exception to propagate\n            return False",
+       'E', 'body exceptions are swallowed')
+mutant('C05', 'c05-failed-child-no-cancel', CONTEXT,
+       "        if failed:\n            self.__cancel__()\n            self._child_failures.append(child.__exception__)",
+       "        if failed:\n            self._child_failures.append(child.__exception__)",
+       'Q', 'the body keeps running after a child failed')
+mutant('C05', 'c05-cancel-next-step', CONTEXT,
+       "            __USIM_STATE__.loop.schedule(self._activity, self._cancel_self)",
+       "            __USIM_STATE__.loop.schedule(self._activity, self._cancel_self, delay=1)",
+       'Q', 'the scope ends later than the failure')
+mutant('C05', 'c05-record-task-not-exception', CONTEXT,
+       "            self._child_failures.append(child.__exception__)",
+       "            self._child_failures.append(child)",
+       'X', 'Concurrent contains tasks')
+mutant('C05', 'c05-promote-assertion-dropped', CONTEXT,
+       "        SystemExit, KeyboardInterrupt, AssertionError\n",
+       "        SystemExit, KeyboardInterrupt\n",
+       'T PROMOTE', 'AssertionError is wrapped')
+twin('C05', 'c05-twin-local-names', CONTEXT,
+     "        suppress = self.SUPPRESS_CONCURRENT\n        promote = self.PROMOTE_CONCURRENT\n        concurrent = []\n        for exc in self._child_failures:\n            if isinstance(exc, promote):\n                return exc, None\n            if not isinstance(exc, suppress):\n                concurrent.append(exc)",
+     "        concurrent = []\n        for exc in self._child_failures:\n            if isinstance(exc, self.PROMOTE_CONCURRENT):\n                return exc, None\n            if not isinstance(exc, self.SUPPRESS_CONCURRENT):\n                concurrent.append(exc)",
+     'aliases removed')
